@@ -100,38 +100,109 @@ def match_known(entry, prop, res):
 
 
 def run_workers(binary, prop, seed, tier, ncases, budget, extra=None, samples=2):
-    procs = []
+    """Fan out over worker processes. A worker that dies (panic in a helper goroutine, fatal
+    error, race report, CPU watchdog) is charged to the case it had announced with a start
+    marker and not finished; the worker is then restarted after that case."""
+    import threading
     w = min(NPROC, max(1, ncases))
     env = dict(os.environ, GOMAXPROCS=os.environ.get("VERIF_GOMAXPROCS", "1"))
     if "GORACE" not in env:
         env["GORACE"] = "halt_on_error=1 exitcode=66"
-    for i in range(w):
-        cmd = [binary, "-prop", prop, "-seed", str(seed), "-tier", tier, "-from", str(i), "-to", str(ncases),
-               "-step", str(w), "-budget", "%ds" % budget, "-samples", str(samples if i == 0 else 0)]
-        if extra:
-            cmd += extra
-        procs.append(subprocess.Popen(cmd, stdout=subprocess.PIPE, stderr=subprocess.PIPE, env=env))
     results = []
     errs = []
-    # generous watchdog: budget + 10 minutes
-    deadline = time.time() + budget + 600
-    for i, p in enumerate(procs):
-        try:
-            out, err = p.communicate(timeout=max(1, deadline - time.time()))
-        except subprocess.TimeoutExpired:
-            p.kill()
-            out, err = p.communicate()
-            errs.append("worker %d: watchdog timeout (a case blocked for real)\n%s" % (i, err.decode(errors="replace")[-2000:]))
-        for line in out.splitlines():
-            if not line.strip():
-                continue
+    lock = threading.Lock()
+    t_end = time.time() + budget
+    casecpu = CASE_CPU.get(prop)
+
+    def slot(i):
+        frm = i
+        restarts = 0
+        while frm < ncases:
+            left = t_end - time.time()
+            if left <= 0 and restarts > 0:
+                return
+            cmd = [binary, "-prop", prop, "-seed", str(seed), "-tier", tier, "-from", str(frm), "-to", str(ncases),
+                   "-step", str(w), "-budget", "%ds" % max(1, int(left)), "-samples", str(samples if (i == 0 and restarts == 0) else 0), "-mark"]
+            if casecpu:
+                cmd += ["-casecpu", "%ds" % casecpu]
+            if extra:
+                cmd += extra
+            p = subprocess.Popen(cmd, stdout=subprocess.PIPE, stderr=subprocess.PIPE, env=env)
             try:
-                results.append(json.loads(line))
-            except Exception:
-                errs.append("worker %d: bad output line %r" % (i, line[:200]))
-        if p.returncode not in (0,):
-            errs.append("worker %d exited with %s\n%s" % (i, p.returncode, err.decode(errors="replace")[-3000:]))
+                out, err = p.communicate(timeout=max(1, left) + 900)
+            except subprocess.TimeoutExpired:
+                p.kill()
+                out, err = p.communicate()
+                with lock:
+                    errs.append("worker %d: watchdog timeout (a case blocked for real)\n%s" % (i, err.decode(errors="replace")[-2000:]))
+                return
+            started = None
+            done = set()
+            local = []
+            for line in out.splitlines():
+                if not line.strip():
+                    continue
+                try:
+                    r = json.loads(line)
+                except Exception:
+                    continue
+                if "start" in r and len(r) == 1:
+                    started = r["start"]
+                else:
+                    local.append(r)
+                    done.add(r.get("i"))
+            with lock:
+                results.extend(local)
+            if p.returncode == 0:
+                return
+            etxt = err.decode(errors="replace")
+            if started is None or started in done:
+                with lock:
+                    errs.append("worker %d exited with %s outside any case\n%s" % (i, p.returncode, etxt[-3000:]))
+                return
+            cls = "process-died"
+            if p.returncode == 3 and '"hang"' in etxt:
+                cls = "hang"
+            elif p.returncode == 66 or "WARNING: DATA RACE" in etxt:
+                cls = "data-race"
+            detail = summarize_death(etxt, p.returncode)
+            with lock:
+                results.append({"prop": prop, "i": started, "v": "fail", "class": cls, "detail": detail, "feat": death_feat(etxt), "ev": 0, "tasks": 0, "nt": True, "tape": None, "tl": 0, "stderr": etxt[-6000:]})
+            frm = started + w
+            restarts += 1
+            if restarts > 50:
+                with lock:
+                    errs.append("worker %d: more than 50 process deaths, giving up" % i)
+                return
+
+    threads = [threading.Thread(target=slot, args=(i,)) for i in range(w)]
+    for th in threads:
+        th.start()
+    for th in threads:
+        th.join()
     return results, errs
+
+
+def summarize_death(etxt, rc):
+    lines = [l for l in etxt.splitlines() if l.strip()]
+    key = [l for l in lines if l.startswith("panic:") or l.startswith("fatal error:") or "DATA RACE" in l or l.startswith('{"hang"')]
+    head = key[0] if key else (lines[0] if lines else "")
+    return ("worker process ended with exit status %s: %s" % (rc, head))[:500]
+
+
+def death_feat(etxt):
+    """Features of a process death used to group failures: the first library frame of the stack."""
+    feats = []
+    lines = etxt.splitlines()
+    for j, l in enumerate(lines):
+        if "kanzi-go/v2/" in l and "verifharness" not in l and "(" in l:
+            fn = l.strip().split("(")[0].split("/")[-1]
+            feats.append("at:" + fn)
+            break
+    return feats
+
+
+CASE_CPU = {"C03": 60}
 
 
 def shrink_and_confirm(binary, prop, seed, tier, res):
@@ -144,12 +215,29 @@ def shrink_and_confirm(binary, prop, seed, tier, res):
     with open(path, "w") as f:
         json.dump(rf, f)
     env = dict(os.environ, GOMAXPROCS="1")
-    p = subprocess.run([binary, "-shrink", path], stdout=subprocess.PIPE, stderr=subprocess.PIPE, env=env, timeout=900)
+    if "GORACE" not in env:
+        env["GORACE"] = "halt_on_error=1 exitcode=66"
+    dead = rf["class"] in ("process-died", "hang", "data-race")
+    cpu = ["-casecpu", "%ds" % (5 * CASE_CPU.get(prop, 60))] if dead else []
+    if rf["class"] == "data-race":
+        # the verdict of the race detector is confirmed by replaying the case alone; no shrinking
+        p = subprocess.run([binary, "-replay", path], stdout=subprocess.PIPE, stderr=subprocess.PIPE, env=env, timeout=1800)
+        etxt = p.stderr.decode(errors="replace")
+        ok = p.returncode == 66 or "WARNING: DATA RACE" in etxt
+        return path, ok, dict(res), "" if ok else "the race report did not recur when the case was replayed alone"
+    p = subprocess.run([binary, "-shrink", path] + cpu, stdout=subprocess.PIPE, stderr=subprocess.PIPE, env=env, timeout=1800)
     if p.returncode == 3:
         return path, False, None, "the recorded tape does not reproduce the failure (shrink step)"
     if p.returncode != 0:
         return path, False, None, "shrinker failed: " + p.stderr.decode(errors="replace")[-1500:]
-    p = subprocess.run([binary, "-replay", path], stdout=subprocess.PIPE, stderr=subprocess.PIPE, env=env, timeout=900)
+    p = subprocess.run([binary, "-replay", path] + cpu, stdout=subprocess.PIPE, stderr=subprocess.PIPE, env=env, timeout=1800)
+    if dead:
+        # the violation is the death / stall of the process itself: it must recur in a fresh process
+        etxt = p.stderr.decode(errors="replace")
+        again = (p.returncode == 3 and '"hang"' in etxt) if rf["class"] == "hang" else (p.returncode not in (0, 1, 3))
+        final = dict(res)
+        final["detail"] = summarize_death(etxt, p.returncode) if again else res.get("detail")
+        return path, again, final, "" if again else "the process survived when the minimised tape was replayed alone (exit %s)" % p.returncode
     try:
         final = json.loads(p.stdout.decode().strip().splitlines()[-1])
     except Exception:
@@ -335,6 +423,8 @@ ASSUMPTIONS = {
 EXPECTED_PROBES = {
     "C01": ["blocks", "tiny.input", "chain.gt4", "headerless"],
     "C02": ["damage.reported", "damage.harmless", "bytes.after.error", "parser.agrees"],
+    "C03": ["rejected.with.error", "decoded.to.eof", "big.bwt.blocks"],
+    "C10": ["corpus.entries", "differential.pairs"],
     "C05": ["failed.block.reported", "damage.undetected.nochecksum", "parser.agrees"],
     "C06": ["src.short.not.multiple.of.8", "write.1byte"],
     "C07": ["handoff.cancel.observed", "handoff.failed.tasks", "handoff.io.by.holder", "handoff.end.of.stream.task", "sink.fault.while.task.holds", "src.fault.while.task.holds"],
@@ -344,7 +434,7 @@ EXPECTED_PROBES = {
     "C14": ["crosses.flush.boundary", "read.rechunked"],
     "C17": ["close.failed.then.retried", "close.repeated", "write.after.close.refused", "read.after.close.refused", "closed.without.data"],
 }
-REAL_EXTRA = {}
+REAL_EXTRA = {"C10": ["harness/ref: frozen copy of the pinned v2 tree (commit 76efab5) - reference Writer and Reader, real code, plain goroutines"]}
 STUB_EXTRA = {}
 REAL_ONLY = {"C14": ["v2/bitstream (DefaultOutputBitStream, DefaultInputBitStream)"]}
 
